@@ -50,6 +50,11 @@ type loaded struct {
 
 var problems []string
 
+// repoRoot is the repository the facts are read from; file names in facts are relative to it
+var repoRoot = "/repo"
+
+func relPath(f string) string { return strings.TrimPrefix(f, strings.TrimSuffix(repoRoot, "/")+"/") }
+
 func fail(format string, a ...interface{}) { problems = append(problems, fmt.Sprintf(format, a...)) }
 
 func load(repo string, pats []string) map[string]*loaded {
@@ -122,7 +127,7 @@ func (l *loaded) funcDecl(name string) *ast.FuncDecl {
 
 func (l *loaded) pos(n ast.Node) string {
 	p := l.fset.Position(n.Pos())
-	return fmt.Sprintf("%s:%d", strings.TrimPrefix(p.Filename, "/repo/"), p.Line)
+	return fmt.Sprintf("%s:%d", relPath(p.Filename), p.Line)
 }
 
 func exprName(e ast.Expr) string { return types.ExprString(e) }
@@ -485,17 +490,17 @@ func inventory(pkgs map[string]*loaded, names []string) (maps, clocks, rands, go
 					if tv, ok := l.info.Types[x.X]; ok {
 						if _, isMap := tv.Type.Underlying().(*types.Map); isMap {
 							p := l.fset.Position(x.Pos())
-							maps = append(maps, fmt.Sprintf("%s:%s:%s", strings.TrimPrefix(p.Filename, "/repo/"), fn, exprName(x.X)))
+							maps = append(maps, fmt.Sprintf("%s:%s:%s", relPath(p.Filename), fn, exprName(x.X)))
 						}
 					}
 				case *ast.CallExpr:
 					if exprName(x.Fun) == "time.Now" {
 						p := l.fset.Position(x.Pos())
-						clocks = append(clocks, fmt.Sprintf("%s:%s", strings.TrimPrefix(p.Filename, "/repo/"), fn))
+						clocks = append(clocks, fmt.Sprintf("%s:%s", relPath(p.Filename), fn))
 					}
 				case *ast.GoStmt:
 					p := l.fset.Position(x.Pos())
-					gos = append(gos, fmt.Sprintf("%s:%s", strings.TrimPrefix(p.Filename, "/repo/"), fn))
+					gos = append(gos, fmt.Sprintf("%s:%s", relPath(p.Filename), fn))
 				}
 				return true
 			})
@@ -516,7 +521,7 @@ func panicSites(pkgs map[string]*loaded, names []string) (sites []string) {
 			continue
 		}
 		for _, f := range l.files {
-			fname := strings.TrimPrefix(l.fset.Position(f.Pos()).Filename, "/repo/")
+			fname := relPath(l.fset.Position(f.Pos()).Filename)
 			if strings.HasSuffix(fname, ".pb.go") || strings.HasSuffix(fname, ".pb.gw.go") || strings.HasSuffix(fname, "_test.go") ||
 				strings.Contains(fname, "/client/") || strings.Contains(fname, "/simulation/") || strings.HasSuffix(fname, "/module.go") ||
 				strings.HasSuffix(fname, "query.go") {
@@ -689,6 +694,7 @@ func main() {
 	repo := flag.String("repo", "/repo", "repository")
 	out := flag.String("out", "", "directory of the generated Lean files")
 	flag.Parse()
+	repoRoot = *repo
 	pats := []string{"./app", "./app/ante", "./app/post", "./x/oracle", "./x/oracle/keeper", "./x/oracle/types", "./x/oracle/voteprocessor", "./x/settlement", "./x/settlement/keeper",
 		"./x/settlement/types", "./types", "./tools/interop-node/subscriber"}
 	pkgs := load(*repo, pats)
